@@ -68,3 +68,34 @@ func VerifC19_Ucdao() {
 	}
 	zz.Reach("end")
 }
+
+// VerifC12_GenesisDerivesTotal: total_balance is optional in the DAO genesis - InitGenesis derives the recorded total from
+// the listed balances and only cross-checks the field when it is present. A genesis that lists balances and omits the field
+// must import into a ledger whose recorded total is the sum of the holders, like one that carries it.
+func VerifC12_GenesisDerivesTotal() {
+	n := zz.ParamInt("accounts", 2)
+	c12Denoms = []string{"aISLM", "aLIQUID1"}
+	var bals []types.Balance
+	sum := map[string]sdk.Int{"aISLM": sdk.ZeroInt(), "aLIQUID1": sdk.ZeroInt()}
+	for i := 0; i < n; i++ {
+		coins := sdk.NewCoins()
+		for _, d := range c12Denoms {
+			b := zz.AnyAmount("bal."+string(rune('A'+i))+"."+d, 100)
+			coins = coins.Add(sdk.NewCoin(d, b))
+			sum[d] = sum[d].Add(b)
+		}
+		bals = append(bals, types.Balance{Address: c12Addr(i).String(), Coins: coins})
+	}
+	total := sdk.NewCoins(sdk.NewCoin("aISLM", sum["aISLM"]), sdk.NewCoin("aLIQUID1", sum["aLIQUID1"]))
+	g := &types.GenesisState{Params: types.Params{EnableDao: true}, Balances: bals}
+	if zz.AnyBool("genesisCarriesTotal") {
+		g.TotalBalance = total
+	}
+	k, ctx := c19Keeper()
+	k.InitGenesis(ctx, g)
+	for _, d := range c12Denoms {
+		zz.ObserveInt("recordedTotal."+d, k.GetTotalBalanceOf(ctx, d).Amount)
+		zz.Assert(k.GetTotalBalanceOf(ctx, d).Amount.Equal(sum[d]), "after genesis import the recorded DAO total is the sum of the listed holders' balances, whether or not the genesis carries total_balance")
+	}
+	zz.Reach("end")
+}
